@@ -59,9 +59,31 @@ def RowWise (dec : List Val → Except ErrKind (List X)) : Prop :=
     dec args' = .ok (filterBits bits rows)
 
 /-- the same in replace mode: the unselected rows are replaced by `rr row` -/
-def RowWiseRepl (dec : List Val → Except ErrKind (List X)) (r : Int) (rr : X → X) : Prop :=
+def RowWiseRepl (dec : List Val → Except ErrKind (List X)) (r : Scalar) (rr : X → X) : Prop :=
   ∀ args rows bits args', dec args = .ok rows → applyMasks (some r) args [.np bits] = .ok args' →
     dec args' = .ok (replBits rr bits rows)
+
+/-- Replacement values that numpy never converts to or from a string: ints, floats and `None`
+(`DType.promote` yields a numeric or the `object` dtype, or raises).  A `str` replacement stringifies a
+numeric column and a `bool` replacement is stringified by a string column (finding
+F-C02-replace-str-promote); for those see `RowWiseReplOn`. -/
+def Scalar.Plain (r : Scalar) : Prop := r.dtype ≠ .str ∧ r.dtype ≠ .bool
+
+instance (r : Scalar) : Decidable r.Plain := by unfold Scalar.Plain; exact inferInstance
+
+/-- A column (array-like) that `np.where(mask, column, r)` leaves at the value level: the common dtype
+is not a string dtype, or everything involved is a string already. -/
+def Val.StrSafe (r : Scalar) (x : Val) : Prop :=
+  (inferDType x.scalars).promote r.dtype ≠ some .str ∨
+    (r.dtype = .str ∧ ∀ s ∈ x.scalars, s.dtype = .str)
+
+instance (r : Scalar) (x : Val) : Decidable (x.StrSafe r) := by unfold Val.StrSafe; exact inferInstance
+
+/-- `RowWiseRepl` restricted to argument lists satisfying `A` (e.g. every column `StrSafe`) -/
+def RowWiseReplOn (A : List Val → Prop) (dec : List Val → Except ErrKind (List X)) (r : Scalar)
+    (rr : X → X) : Prop :=
+  ∀ args rows bits args', A args → dec args = .ok rows →
+    applyMasks (some r) args [.np bits] = .ok args' → dec args' = .ok (replBits rr bits rows)
 
 /-- the reported value under output key number `i` -/
 def Agg.outputAt (a : Agg X S Rv) (s : S) (i : Nat) : Option (ROut Rv) :=
